@@ -20,6 +20,7 @@ func propC12(w *World, r *Report) {
 	defer RunSearchMonotone(w, r, "/hmtx", "/head", "/os2", "/post", "/maxp", "")
 	defer RunFilterRef(w, r, "/hmtx", "/head", "/os2", "/post", "/maxp", "")
 	defer RunFDMatrix(w, r)
+	defer RunNoHistory(w, r, "/hmtx", "/head", "/os2", "/post", "/maxp", "/cff", "/glyf", "")
 	defer RunMatrixOrder(w, r)
 	r.Rule("fieldpair: for head, OS/2, post, maxp and hhea the reader's relation 'application field <- stream bytes' (through binary.Read wire structs, whose layout is computed from go/types, or byte windows) equals the writer's relation 'stream bytes <- application field' (wire struct literals or byte literals) for every field || bitpair: for every boolean field the bits the writer sets equal the bits the reader expects || fieldcover: every field of the Info struct takes part in a pairing || wiresize: declared table lengths equal the size of the wire structs")
 	r.Conds["cpr-halves-agree"] = condHalvesAgree(w)
